@@ -178,6 +178,13 @@ func (n *node) GetModuleByPrefix(
 		return root, nil
 	}
 	mname, ok := getPfxName(root, pfx)
+	if !ok && root.Type() == NodeSubmodule {
+		// In a submodule the prefix given in belongs-to denotes the
+		// module the submodule belongs to.
+		if bt := root.ChildByType(NodeBelongsTo); bt != nil && bt.Prefix() == pfx {
+			mname, ok = bt.Name(), true
+		}
+	}
 	if !ok {
 		if !skipUnknown {
 			return nil, fmt.Errorf("unknown import %s", pfx)
